@@ -574,6 +574,8 @@ def check_C02(sc, v, tier, seed, replay):
     # (reg, pdu, svc, rel, dereg): the third shape asks for more services / releases than sessions and more sessions than ... each clamp of
     # the main program is exercised by a count larger than its prerequisite, separately for pdu < rel and reg < pdu
     shapes = [(1, 1, 1, 1, 1), (2, 1, 3, 2, 3), (2, 3, 1, 3, 1), (2, 2, 0, 1, 2)]     # the last: a session still active at deregistration, no service
+    # "any number of UEs": one run with more UEs than a PDU session identity has values (17 register and deregister, two hold a session)
+    shapes.append((17, 2, 1, 1, 17) if tier == "quick" else (33, 3, 2, 1, 33))
     if tier != "quick":
         shapes += [(3, 3, 3, 3, 3), (3, 2, 1, 0, 3), (2, 0, 3, 3, 1), (1, 3, 0, 2, 0), (3, 1, 2, 1, 2), (2, 2, 0, 2, 2), (2, 2, 2, 0, 0),
                    (1, 1, 0, 0, 1), (3, 3, 0, 3, 0), (2, 1, 3, 3, 3), (1, 0, 0, 0, 1), (3, 2, 2, 2, 1), (2, 2, 2, 1, 1)]
